@@ -72,6 +72,10 @@ func runC07(r *Run) {
 		o     RawOpts
 		msgs  []msgPlan
 		write int // messages the library writes at the end (if still open)
+		// wAction: 0 plain writes at the end, 1 chunked Writers (parks between
+		// chunks, so that writers of several connections overlap), 2 a compressed
+		// write that fails half way (peer not reading, context expiry) first
+		wAction int
 	}
 	type slotPlan struct{ conns []connPlan }
 	var slots []slotPlan
@@ -103,6 +107,10 @@ func runC07(r *Run) {
 				}
 			}
 			cp.write = t.Draw(3)
+			cp.wAction = t.Weighted(5, 3, 2)
+			if cp.wAction == 1 && cp.write == 0 {
+				cp.write = 1
+			}
 			sp.conns = append(sp.conns, cp)
 			d := fmt.Sprintf("conn%d cli=%v ext=%q:", cp.id, cp.o.LibClient, cp.o.Ext)
 			for _, m := range cp.msgs {
@@ -129,6 +137,25 @@ func runC07(r *Run) {
 						comp = &wsref.Deflater{Takeover: rc.PeerTake}
 					}
 					closed := false
+					if cp.wAction == 2 {
+						// a compressed message that cannot be finished: the peer stops
+						// draining, the pipe is tiny, the context expires mid-write
+						hold := true
+						peer.Hold = func() bool { return hold }
+						rc.Lib.Out().Cap = 300
+						rc.Lib.Out().HardCap = true
+						ctx, cancel := context.WithTimeout(bg, time.Second)
+						data := tagged(cp.id, 1, 0, 20000)
+						err := c.Write(ctx, websocket.MessageBinary, data)
+						cancel()
+						hold = false
+						r.S.Kick()
+						if err == nil {
+							r.Violate("blocked-write-succeeded", "write", "conn %d: a 20000-byte write to a peer that does not read returned nil", cp.id)
+						}
+						r.S.Count("probe.write-failed-midway")
+						return
+					}
 					for seq, mp := range cp.msgs {
 						sig := fmt.Sprintf("action=%s,compressed=%v", c07Actions[mp.action], mp.comp && comp != nil)
 						want := tagged(cp.id, 0, seq, mp.n)
@@ -251,6 +278,26 @@ func runC07(r *Run) {
 						for i := 0; i < cp.write; i++ {
 							r.S.Park("a." + who + ".w")
 							data := tagged(cp.id, 1, i, []int{100, 600, 3000, 9000}[i%4]+cp.id)
+							if cp.wAction == 1 {
+								data = tagged(cp.id, 1, i, []int{600, 3000, 9000, 700}[i%4]+cp.id)
+								w, err := c.Writer(bg, websocket.MessageBinary)
+								for off := 0; err == nil && off < len(data); off += 1 + len(data)/3 {
+									end := off + 1 + len(data)/3
+									if end > len(data) {
+										end = len(data)
+									}
+									_, err = w.Write(data[off:end])
+									r.S.Park("a." + who + ".wchunk") // let other connections write in between
+								}
+								if err == nil {
+									err = w.Close()
+								}
+								if err != nil {
+									r.Violate("write-error", "write", "conn %d: chunked write %d failed: %v", cp.id, i, err)
+									return
+								}
+								continue
+							}
 							if err := c.Write(bg, websocket.MessageBinary, data); err != nil {
 								r.Violate("write-error", "write", "conn %d: write %d failed: %v", cp.id, i, err)
 								return
